@@ -178,6 +178,9 @@ class Check(PropertyCheck):
             yield Scenario(["new", "cpnew", f"mark middur {rng.randint(0, 10**6)}"], {"families": "middur", "solves": 1})
         # a build / solve / drop loop (the way a benchmark study runs): same shape, same total processing time, every
         # instance garbage before the next one exists - each answer must be about the instance that was passed
+        yield Scenario(["new", "cpnew", "mark cpsatrange 0"], {"families": "cpsatrange", "solves": 1})
+        for k in range(2 if tier == "quick" else 6):
+            yield Scenario(["new", "cpnew", f"mark degenerate {rng.randint(0, 10**6)}"], {"families": "degenerate", "solves": 1})
         for k in range(3 if tier == "quick" else 20):
             yield Scenario(["new", "cpnew", f"mark resolve {rng.randint(0, 10**6)}"], {"families": "resolve", "solves": 3})
         for k in range(3 if tier == "quick" else 25):
@@ -318,6 +321,41 @@ class Check(PropertyCheck):
                     break
                 del inst, sched
                 gc.collect()
+        elif line.startswith("mark cpsatrange"):
+            # total processing time of 2**61 and beyond: CP-SAT's 64-bit model cannot hold the horizon, the model is rejected as invalid
+            # and solve() raises the no-solution error although no time limit is set (a recorded open finding)
+            from impl_ext import _ORToolsSolver, _NoSolution
+            half = 2 ** 60
+            jobs = [[([0], half)], [([0], half)]]
+            inst = build_instance(jobs)
+            try:
+                sched = _ORToolsSolver().solve(inst)
+            except _NoSolution:
+                res.append(("cpsat-int-range", f"NoSolutionFoundError without a time limit for the instance {jobs} (total processing time 2**61; "
+                            "the optimum is 2**61, found at once by any dispatching rule)"))
+            else:
+                res += self.check_schedule(inst, jobs, sched, brute=False)
+        elif line.startswith("mark degenerate"):
+            # instances without any operation (no jobs, or only empty jobs) are instances too: the empty schedule, makespan 0, at once
+            import jsl as _jsl
+            from impl_ext import _ORToolsSolver, _NoSolution
+            r = random.Random(int(line.split()[2]))
+            shape = r.choice([[], [[]], [[], []]])
+            try:
+                inst = _jsl.JobShopInstance([list(j) for j in shape], name="degenerate")
+            except Exception:  # pylint: disable=broad-except
+                return res          # (if the library does not accept such an instance there is nothing to solve)
+            try:
+                sched = _ORToolsSolver().solve(inst)
+            except _NoSolution:
+                res.append(("no-solution", f"NoSolutionFoundError without a time limit for the instance {shape} (no operations: the empty "
+                            "schedule is optimal)"))
+            except Exception as e:  # pylint: disable=broad-except
+                res.append(("solve-raised", f"solve raised {e!r} for the instance {shape}"))
+            else:
+                if sum(len(ms) for ms in sched.schedule) != 0 or sched.makespan() != 0 or sched.metadata.get("makespan") != 0:
+                    res.append(("reported-makespan", f"instance {shape}: schedule {sched.schedule}, makespan {sched.makespan()}, "
+                                f"metadata {sched.metadata.get('makespan')}"))
         elif line.startswith("mark resolve"):
             # the same solver object solves the same instance object again after the caller has taken the first result apart
             # (reset it, or dispatched something else into it): the second answer is a schedule of its own - complete, feasible, optimal
